@@ -97,6 +97,35 @@ Definition request_outcome (scheck : bytes -> option settings_err) (s : rside) (
   : list revent * rfinal :=
   req_out s DStart (frame_outcome scheck flat en).
 
+(* RFC 9114 7.2.4, 7.2.4.1, 11.2.2: is this SETTINGS payload acceptable?  Identifier-value pairs of variable-length
+   integers covering the payload exactly; the identifiers reserved because HTTP/2 used them (0x00, 0x02, 0x03, 0x04,
+   0x05) MUST NOT be sent; the same identifier MUST NOT occur twice.  Written from the RFC: it does not look at h3's
+   lists.  (A receiver MAY ignore a repeated identifier it does not know; on a request stream that only widens the
+   allowed codes.) *)
+Definition rfc_reserved_setting (id : N) : bool :=
+  (id =? 0) || (id =? 2) || (id =? 3) || (id =? 4) || (id =? 5).
+Fixpoint rfc_settings_scan (fuel : nat) (p : bytes) (seen : list N) : option settings_err :=
+  match fuel with
+  | O => Some SMalformed
+  | S f =>
+    match p with
+    | [] => None
+    | _ =>
+      match rfc_take_varint p with
+      | None => Some SMalformed
+      | Some (id, r1) =>
+        match rfc_take_varint r1 with
+        | None => Some SMalformed
+        | Some (_, r2) =>
+          if rfc_reserved_setting id then Some (SInvalidId id)
+          else if existsb (N.eqb id) seen then Some (SRepeated id)
+          else rfc_settings_scan f r2 (id :: seen)
+        end
+      end
+    end
+  end.
+Definition rfc_settings_verdict (p : bytes) : option settings_err := rfc_settings_scan (S (length p)) p [].
+
 (* the language itself, on the sequence of frame kinds (for the statement "delivered iff in the language") *)
 Inductive kind := KHeaders | KData | KOther.
 Fixpoint in_language (st : dstate) (ks : list kind) : bool :=
